@@ -138,7 +138,9 @@ func (r *gatewayController) buildDesiredHTTPRoute(rules []gatewayv1beta1.HTTPRou
 				stableRef.Weight = utilpointer.Int32(1)
 				setServiceBackendRef(&rule, *stableRef)
 			}
-			if len(rule.BackendRefs) != 0 {
+			// drop only the generated canary rules (left without backends); a rule the user wrote
+			// without backendRefs (e.g. a redirect) is kept
+			if len(rule.BackendRefs) != 0 || len(rules[i].BackendRefs) == 0 {
 				desired = append(desired, rule)
 			}
 		}
